@@ -227,6 +227,46 @@ def resolveCA (T : Tables) (L : LabTables) (al : List (String × GName)) (v : FV
     (items : List CircItem) : Except ErrC (List FGate) :=
   resolveC T L v basis (items.map (CircItem.canon al))
 
+/-! ## histories on one live circuit object
+
+The public fields of a gate object (`targets`, `controls`, `arg_value`, the classical condition) can be re-assigned,
+gates appended and removed, between calls of `resolve_gates` on the same `QubitCircuit`.  The model of `resolve_gates`
+is a function of the fields as they are when it is called: no memo on the gate objects, no state in the circuit, and
+the call leaves the circuit it is called on alone. -/
+
+inductive HOp
+  /-- `qc.resolve_gates(basis)` -/
+  | resolve (b : BasisSpec)
+  | setTargets (i : Nat) (ts : List Nat)
+  | setControls (i : Nat) (cs : List Nat)
+  | setArg (i : Nat) (a : Ang)
+  | setCond (i : Nat) (c : Option Cond)
+  /-- `qc.add_gate(...)` / `qc.add_measurement(...)` at the end -/
+  | append (it : CircItem)
+  /-- `qc.remove_gate_or_measurement(index=i)` -/
+  | remove (i : Nat)
+deriving DecidableEq, Repr
+
+def CircItem.upd (f : Gate → Gate) (fc : Option Cond → Option Cond) : CircItem → CircItem
+  | .gate g l c => .gate (f g) l (fc c)
+  | .meas => .meas
+
+def applyHOp (items : List CircItem) : HOp → List CircItem
+  | .resolve _ => items
+  | .setTargets i ts => items.modify i (CircItem.upd (fun g => { g with targets := ts }) id)
+  | .setControls i cs => items.modify i (CircItem.upd (fun g => { g with controls := cs }) id)
+  | .setArg i a => items.modify i (CircItem.upd (fun g => { g with arg := a }) id)
+  | .setCond i c => items.modify i (CircItem.upd id (fun _ => c))
+  | .append it => items ++ [it]
+  | .remove i => items.eraseIdx i
+
+/-- the answers of the `resolve_gates` calls of a history, in order -/
+def runHistory (T : Tables) (L : LabTables) (al : List (String × GName)) (v : FVariant) :
+    List CircItem → List HOp → List (Except ErrC (List FGate))
+  | _, [] => []
+  | items, .resolve b :: ops => resolveCA T L al v b items :: runHistory T L al v items ops
+  | items, op :: ops => runHistory T L al v (applyHOp items op) ops
+
 /-! ## execution under a classical state -/
 
 /-- does the condition hold for the classical bits `σ` (first bit of `bits` = most significant bit of
